@@ -81,6 +81,18 @@ def run(tier):
         chk.ok(R, inst, 'src/symcipher/chacha20_ct.c', 'shl %s lshr %s' % (sorted(shl), sorted(shr)))
     else:
         chk.violation(R, inst, 'src/symcipher/chacha20_ct.c', 'shl %s lshr %s' % (sorted(shl), sorted(shr)), key='%s chacha rot' % R)
+    # ChaCha20 is a 32-bit add-rotate-xor design: the SSE2 implementation may only add in 32-bit lanes (block counter included,
+    # RFC 8439 2.3: a 32-bit counter that wraps on its own word)
+    u2 = build.load_unit('src/symcipher/chacha20_sse2.c')
+    f2 = next((x for x in u2['functions'] if x['name'] == 'br_chacha20_sse2_run' and not x['decl']), None)
+    if f2 is not None:
+        adds = [(i['ty'], i.get('line')) for b in f2['blocks'] for i in b['insts'] if i['op'] in ('add', 'sub') and '<' in i.get('ty', '')]
+        bad = [a for a in adds if a[0] != '<4 x i32>']
+        inst = 'chacha20_sse2: every vector addition (state words and block counter) is a 4 x 32-bit lane addition'
+        if adds and not bad:
+            chk.ok(R, inst, 'src/symcipher/chacha20_sse2.c', '%d vector additions' % len(adds))
+        else:
+            chk.violation(R, inst, 'src/symcipher/chacha20_sse2.c', 'vector additions of other widths: %s' % bad, key='%s chacha sse2 lanes' % R)
     # Poly1305: modulus and clamp
     u = build.load_unit('src/symcipher/poly1305_i15.c')
     p = (1 << 130) - 5
